@@ -512,6 +512,9 @@ class Engine:
             return V(REAL, to_real(v))
         if name == 'round':
             return self.bi_round(n, ctx, ev)
+        if name == 'iprefix':
+            sv = ev.ev(n.args[0], ctx)
+            return V(BOOL, self.iprefix(sv.t, n.args[1].value))
         if name == 'sumto':
             lst = ev.ev(n.args[0], ctx)
             k = ev.ev(n.args[1], ctx)
@@ -729,8 +732,26 @@ class Engine:
             return V(INT, r)
         raise OutOfSubset('.index')
 
+    def meth_lower(self, recv, n, ctx, ev):
+        f = z3.Function('str_lower', z3.StringSort(), z3.StringSort())
+        ctx.assume(z3.Length(f(recv.t)) == z3.Length(recv.t))
+        self.libs_used.add('A-ASCII: str.lower() changes no length and maps only A-Z to a-z (non-ASCII case mappings excluded)')
+        return V(STR, f(recv.t))
+
+    def iprefix(self, s_term, lit):
+        """case-insensitive (ASCII) prefix test of a string term against a lower-case literal"""
+        conds = [z3.Length(s_term) >= len(lit)]
+        for i, ch in enumerate(lit):
+            c_ = z3.SubString(s_term, i, 1)
+            alts = {ch, ch.upper()}
+            conds.append(z3.Or(*[c_ == z3.StringVal(a) for a in sorted(alts)]))
+        return z3.And(*conds)
+
     def meth_startswith(self, recv, n, ctx, ev):
         x = ev.ev(n.args[0], ctx)
+        if z3.is_app(recv.t) and recv.t.decl().name() == 'str_lower' and isinstance(n.args[0], ast.Constant) \
+                and n.args[0].value == n.args[0].value.lower():
+            return V(BOOL, self.iprefix(recv.t.arg(0), n.args[0].value))
         return V(BOOL, z3.PrefixOf(x.t, recv.t))
 
     def meth_endswith(self, recv, n, ctx, ev):
